@@ -370,6 +370,32 @@ def run(tier, fx=None, ck=None, control=False):
             ck.finding("R5.specifier-classes", "R5.specifier-classes/%r" % k, F.short_span(sites[0][1][6]),
                        "the resolver classifies specifiers by the prefix %r, which is none of './', '../', '/': bare specifiers such as '.env' or "
                        "'..a' stop being passed through untouched (or relative ones stop being resolved)" % k)
+    # the directory forms: a specifier that IS `.` or `..` is relative as well (`import cfg from ".."`)
+    wholes = {}
+    for p in sorted(scope):
+        g = fx.fns[p]
+        if g.parent in normalisers:
+            continue
+        for bi, t in g.calls():
+            if (t[1].get("u") or "").endswith("PartialEq::eq") and len(t[2]) == 2:
+                for i in (0, 1):
+                    k = const_str_of(g, t[2][i])
+                    o = t[2][1 - i]
+                    if k is not None and o[0] in ("c", "m") and derives_from(g, o[1][0], set(range(1, g.argc + 1))):
+                        wholes.setdefault(k, []).append((g, t))
+    for k, sites in sorted(wholes.items()):
+        ok = k in (".", "..")
+        ck.instance("R5.specifier-classes", "whole-specifier test %r in %s" % (k, sites[0][0].path), F.short_span(sites[0][1][6]), ok=ok)
+        if not ok:
+            ck.finding("R5.specifier-classes", "R5.specifier-classes/whole-%r" % k, F.short_span(sites[0][1][6]),
+                       "the resolver classifies the specifier %r by name: only the directory forms '.' and '..' are specifiers with a meaning of their own" % k)
+    if not control:
+        for k in (".", ".."):
+            if k not in wholes:
+                ck.instance("R5.specifier-classes", "whole-specifier test %r" % k, None, ok=False)
+                ck.finding("R5.specifier-classes", "R5.specifier-classes/missing-whole-%r" % k, F.short_span(resolve.span),
+                           "no function of the resolver recognises the specifier %r: it is passed through as a bare specifier, while its other spelling %r is "
+                           "resolved against the importer's directory (`resolve(\".\", \"/a/b.ts\")` gives \".\", `resolve(\"./\", ..)` gives \"/a\")" % (k, k + "/"))
     for k in ("./", "../", "/"):
         if k not in prefixes:
             ck.instance("R5.specifier-classes", "prefix test %r" % k, None, ok=False)
